@@ -39,20 +39,20 @@ func init() {
 
 // charGen is the resolved shape of CharRecipe.Generate.
 type charGen struct {
-	fn        *ssa.Function
-	recvCopy  *ssa.Alloc
-	builder   *ssa.Call
-	chars     ssa.Value
-	draw      *ssa.Call
-	drawIdx   *ssa.IndexAddr
-	tokens    *ssa.MakeSlice
-	tokStore  *ssa.Store
-	inner     *core.Counted
-	retry     *core.Loop
-	pwd       *ssa.Alloc
-	filter    *ssa.Call
-	loops     []*core.Loop
-	problems  []string
+	fn       *ssa.Function
+	recvCopy *ssa.Alloc
+	builder  *ssa.Call
+	chars    ssa.Value
+	draw     *ssa.Call
+	drawIdx  *ssa.IndexAddr
+	tokens   *ssa.MakeSlice
+	tokStore *ssa.Store
+	inner    *core.Counted
+	retry    *core.Loop
+	pwd      *ssa.Alloc
+	filter   *ssa.Call
+	loops    []*core.Loop
+	problems []string
 }
 
 func resolveCharGen(p *core.Program) (*charGen, string) {
